@@ -3,6 +3,9 @@ package main
 import (
 	"bytes"
 	"context"
+	"crypto/sha256"
+	"encoding/hex"
+	"path/filepath"
 	"fmt"
 	"math/big"
 	"os"
@@ -374,6 +377,18 @@ type SolverResult struct {
 	Seconds float64
 	Output  string
 	Model   map[string]*big.Int
+	Cached  bool
+}
+
+var solveCacheDir string
+
+func scriptKey(script string) string {
+	// drop the first comment line (obligation name) so that identical VCs share a cache entry
+	if i := strings.Index(script, "\n"); i >= 0 && strings.HasPrefix(script, ";") {
+		script = script[i+1:]
+	}
+	h := sha256.Sum256([]byte(script))
+	return hex.EncodeToString(h[:])
 }
 
 type solverSpec struct {
@@ -481,6 +496,24 @@ func parseModel(out string) map[string]*big.Int {
 
 // Solve races the portfolio. z3-new first; the others join after a short delay.
 func Solve(script, dir, name string, timeoutS int, only string) SolverResult {
+	var ck string
+	if solveCacheDir != "" {
+		ck = filepath.Join(solveCacheDir, scriptKey(script))
+		if b, err := os.ReadFile(ck); err == nil {
+			f := strings.SplitN(string(b), " ", 2)
+			if len(f) == 2 && f[0] == "unsat" {
+				return SolverResult{Status: "unsat", Solver: strings.TrimSpace(f[1]), Cached: true}
+			}
+		}
+	}
+	r := solve0(script, dir, name, timeoutS, only)
+	if ck != "" && r.Status == "unsat" {
+		os.WriteFile(ck, []byte("unsat "+r.Solver+"\n"), 0o644)
+	}
+	return r
+}
+
+func solve0(script, dir, name string, timeoutS int, only string) SolverResult {
 	ctx, cancel := context.WithCancel(context.Background())
 	defer cancel()
 	ch := make(chan SolverResult, len(solvers))
